@@ -1105,8 +1105,8 @@ def main():
         tbit = 1 << CARRIERS.index("script-T")
         ld_c = [dict(m, id=f"ld{m['id']}", mask=m["mask"] & ~tbit if m["site"] == "all"
                      else m["mask"])
-                for m in part_c if m["site"] in ("all", "script-T") and not m["dupmode"] and
-                not m["shared"] and not m["flavor"]]
+                for m in part_c if m["site"] in (("all", "script-T") if chk.thorough else ("all",))
+                and not m["dupmode"] and not m["shared"] and not m["flavor"]]
         # ... and what GNU ld does when the command line names one archive by two names.
         ld_c += [dict(m, id=f"ld{m['id']}") for m in part_c
                  if m["site"] == "ar" and m["dupmode"] == 2 and not m["shared"] and
@@ -1274,7 +1274,9 @@ def main():
         "capped": skipped > 0, "members_not_linked_because_of_wall_cap": skipped,
         "thinned": None if chk.thorough else "referenced/unreferenced and flavour variants only "
                    "on the 9 single-carrier members and the full member; part C: the twice "
-                   "variants only for exe + first flavour, the second flavour only for exe",
+                   "variants only for exe + first flavour, the second flavour only for exe; GNU "
+                   "ld's dependency files are judged for the all-sites member of each spelling "
+                   "variant only (thorough: also for -T alone, which GNU ld cannot combine)",
         "part_c_spelling": {
             "sites": SITES + ["all", "all-inner"], "spellings": SPELL_FMT,
             "variants": [spid_of(*v) for v in spell_variants()],
